@@ -626,3 +626,121 @@ Qed.
 (* on fractional (relaxed) channel counts FloorSTE is NOT the ceiling: 17/4 channels in tiles of 4 *)
 Lemma floor_ste_fraction_example : floor_ste (17 # 4) 4 == 1.
 Proof. vm_compute. reflexivity. Qed.
+
+(* ---------------------------------------------------------------- NE16: kernel growth 1x1 -> 3x3 *)
+(* the only two kernels the dense NE16 wrapper accepts; a 3x3 job is never cheaper than the 1x1 job of the
+   same (or a smaller) layer as soon as the weights have at least one bit *)
+Lemma ne16_iter_kernel wb wb' n n' k k' : 0 <= wb -> 1 <= wb' -> 0 <= n -> n <= n' -> 0 <= k -> k <= k' ->
+  13 <= ne16_iter K1x1 wb n k /\ ne16_iter K1x1 wb n k <= ne16_iter K3x3 wb' n' k'.
+Proof.
+  intros. destruct (ne16_iter_mono K1x1 wb wb n n k k) as [A _]; try assumption; try lra.
+  split; [exact A|].
+  unfold ne16_iter, ne16_wo, ne16_mv, ne16_upd. cbn [is1x1 isdw K1x1 K3x3].
+  pose proof (ne16_load_val K1x1) as L1. pose proof (ne16_load_val K3x3) as L3. cbn [is1x1 K1x1 K3x3] in L1, L3.
+  pose proof ne16_so_val as S.
+  destruct (ne16_nq_bounds k k' ltac:(assumption) ltac:(assumption)) as [N0 N1].
+  assert (P : k' <= k' * wb') by nra. set (p' := k' * wb') in *.
+  rewrite L1, L3, S. nra.
+Qed.
+
+Theorem ne16_lat_kernel wb wb' H H' W W' Ko Ko' Ki Ki' :
+  0 <= wb -> 1 <= wb' -> 0 <= H -> H <= H' -> 0 <= W -> W <= W' -> 0 <= Ko -> Ko <= Ko' -> 0 <= Ki -> Ki <= Ki' ->
+  0 <= ne16_lat K1x1 wb H W Ko Ki /\ ne16_lat K1x1 wb H W Ko Ki <= ne16_lat K3x3 wb' H' W' Ko' Ki'.
+Proof.
+  intros. unfold ne16_lat. cbn [isdw K1x1 K3x3].
+  pose proof (div_and_ceil_nonneg H 3 ltac:(lra) ltac:(assumption)).
+  pose proof (div_and_ceil_nonneg W 3 ltac:(lra) ltac:(assumption)).
+  pose proof (div_and_ceil_mono H H' 3 ltac:(lra) ltac:(assumption)).
+  pose proof (div_and_ceil_mono W W' 3 ltac:(lra) ltac:(assumption)).
+  pose proof (div_and_ceil_nonneg Ki 16 ltac:(lra) ltac:(assumption)) as N0.
+  pose proof (div_and_ceil_mono Ki Ki' 16 ltac:(lra) ltac:(assumption)) as N1.
+  destruct (body_rem_mono (ne16_iter K1x1 wb (div_and_ceil Ki 16)) (ne16_iter K3x3 wb' (div_and_ceil Ki' 16)) 32 ltac:(lra)) with (Ko := Ko) (Ko' := Ko') as [X0 X1]; try assumption.
+  { intros k k' Hk Hkk _. destruct (ne16_iter_kernel wb wb' (div_and_ceil Ki 16) (div_and_ceil Ki' 16) k k'); try assumption. split; lra. }
+  assert (S : 0 <= div_and_ceil H 3 * div_and_ceil W 3 /\ div_and_ceil H 3 * div_and_ceil W 3 <= div_and_ceil H' 3 * div_and_ceil W' 3) by (split; nra).
+  destruct S as [S0 S1].
+  set (s := div_and_ceil H 3 * div_and_ceil W 3) in *. set (s' := div_and_ceil H' 3 * div_and_ceil W' 3) in *.
+  split; nra.
+Qed.
+
+(* Ne16PerfModel_generalized on the two accepted kernels is exactly one job of the respective kind *)
+Lemma ne16_generalized_3x3 dw wb k0 k1 H W Ko Ki : k0 == 3 -> k1 == 3 ->
+  ne16_generalized dw wb k0 k1 H W Ko Ki == ne16_lat (ne16_kind_of true false dw) wb H W Ko Ki.
+Proof.
+  intros E0 E1. unfold ne16_generalized.
+  assert (F : forall a b, a == b -> Qfloor a = Qfloor b) by (intros; apply Qfloor_comp; assumption).
+  assert (N3 : floor_divide k0 3 * floor_divide k1 3 == 1).
+  { unfold floor_divide. rewrite (F (k0 / 3) (3 / 3)) by (rewrite E0; reflexivity). rewrite (F (k1 / 3) (3 / 3)) by (rewrite E1; reflexivity). vm_compute. reflexivity. }
+  assert (N1 : modulo k0 3 * k1 + modulo k1 3 * k0 - modulo k0 3 * modulo k1 3 == 0).
+  { unfold modulo. rewrite (F (k0 / 3) (3 / 3)) by (rewrite E0; reflexivity). rewrite (F (k1 / 3) (3 / 3)) by (rewrite E1; reflexivity).
+    change (Qfloor (3 / 3)) with 1%Z. rewrite E0, E1. vm_compute. reflexivity. }
+  assert (Q3 : qlt_bool 0 (floor_divide k0 3 * floor_divide k1 3) = true) by (apply qlt_bool_iff; lra).
+  assert (Q1 : qlt_bool 0 (modulo k0 3 * k1 + modulo k1 3 * k0 - modulo k0 3 * modulo k1 3) = false) by (apply qlt_false; lra).
+  rewrite Q3, Q1, N3. ring.
+Qed.
+
+Lemma ne16_generalized_1x1 dw wb k0 k1 H W Ko Ki : k0 == 1 -> k1 == 1 ->
+  ne16_generalized dw wb k0 k1 H W Ko Ki == ne16_lat (ne16_kind_of false true dw) wb H W Ko Ki.
+Proof.
+  intros E0 E1. unfold ne16_generalized.
+  assert (F : forall a b, a == b -> Qfloor a = Qfloor b) by (intros; apply Qfloor_comp; assumption).
+  assert (N3 : floor_divide k0 3 * floor_divide k1 3 == 0).
+  { unfold floor_divide. rewrite (F (k0 / 3) (1 / 3)) by (rewrite E0; reflexivity). rewrite (F (k1 / 3) (1 / 3)) by (rewrite E1; reflexivity). vm_compute. reflexivity. }
+  assert (N1 : modulo k0 3 * k1 + modulo k1 3 * k0 - modulo k0 3 * modulo k1 3 == 1).
+  { unfold modulo. rewrite (F (k0 / 3) (1 / 3)) by (rewrite E0; reflexivity). rewrite (F (k1 / 3) (1 / 3)) by (rewrite E1; reflexivity).
+    change (Qfloor (1 / 3)) with 0%Z. rewrite E0, E1. vm_compute. reflexivity. }
+  assert (Q3 : qlt_bool 0 (floor_divide k0 3 * floor_divide k1 3) = false) by (apply qlt_false; lra).
+  assert (Q1 : qlt_bool 0 (modulo k0 3 * k1 + modulo k1 3 * k0 - modulo k0 3 * modulo k1 3) = true) by (apply qlt_bool_iff; lra).
+  rewrite Q3, Q1, N1. ring.
+Qed.
+
+Theorem ne16_wrapper_kernel_mono kok kok' k0 k1 k0' k1' H H' W W' r r' c c' :
+  ne16_le r r' -> 1 <= r V_wp -> 0 <= H -> H <= H' -> 0 <= W -> W <= W' ->
+  k0 == 1 -> k1 == 1 -> k0' == 3 -> k1' == 3 ->
+  ne16_wrapper false kok k0 k1 H W r = Some c -> ne16_wrapper false kok' k0' k1' H' W' r' = Some c' ->
+  0 <= c /\ c <= c'.
+Proof.
+  intros (C0 & C1 & O0 & O1 & P0 & P1 & EI & ET & T0) P HH0 HH HW0 HW E0 E1 E0' E1'. unfold ne16_wrapper. rewrite EI, ET.
+  rewrite (qeqb_false (r V_theta)) by lra. rewrite (qeqb_false (r V_wp)) by lra. rewrite (qeqb_false (r' V_wp)) by lra. cbn [orb].
+  destruct (negb (Qeq_bool (r V_ip) 8)); [discriminate|]. destruct (negb kok); [discriminate|]. destruct (negb kok'); [discriminate|].
+  intros X Y; inversion X; inversion Y; subst c c'.
+  rewrite (ne16_generalized_1x1 false (r V_wp) k0 k1 H W _ _ E0 E1).
+  rewrite (ne16_generalized_3x3 false (r' V_wp) k0' k1' H' W' _ _ E0' E1').
+  change (ne16_kind_of false true false) with K1x1. change (ne16_kind_of true false false) with K3x3.
+  destruct (ne16_lat_kernel (r V_wp) (r' V_wp) H H' W W' (r V_theta * r V_cout) (r V_theta * r' V_cout) (r V_cin) (r' V_cin)) as [A B]; try assumption; try lra; try nra.
+  pose proof (Qinv_lt_0_compat _ T0). unfold Qdiv. split; nra.
+Qed.
+
+(* the dense registered function: the kernel either stays, or grows from 1x1 to 3x3 (its only two values) *)
+Definition ne16_kernel_le (r r' : nat -> Q) : Prop :=
+  same_kernel r r' \/ (r V_k0 == 1 /\ r V_k1 == 1 /\ r' V_k0 == 3 /\ r' V_k1 == 3 /\ 1 <= r V_wp).
+
+Theorem ne16_conv2d_generic_mono_kernel r r' c c' : ne16_le r r' -> ne16_kernel_le r r' -> out_le r r' ->
+  ne16_conv2d_generic r = Some c -> ne16_conv2d_generic r' = Some c' -> 0 <= c /\ c <= c'.
+Proof.
+  intros L [K|(E0 & E1 & E0' & E1' & P)] O.
+  - apply ne16_conv2d_generic_mono; assumption.
+  - destruct O as (A & B & C & D). unfold ne16_conv2d_generic.
+    apply ne16_wrapper_kernel_mono; assumption.
+Qed.
+
+(* the depthwise registered function accepts exactly one kernel: on non-pruned layers "the kernel grows" is vacuous *)
+Theorem ne16_conv2d_dw_kernel_is_3x3 r c : ~ r V_wp == 0 -> ~ r V_theta == 0 ->
+  ne16_conv2d_dw r = Some c -> r V_k0 == 3 /\ r V_k1 == 3.
+Proof.
+  intros A B. unfold ne16_conv2d_dw, ne16_wrapper. rewrite (qeqb_false _ A), (qeqb_false _ B). cbn [orb].
+  destruct (negb (Qeq_bool (r V_ip) 8)); [discriminate|].
+  unfold keq. destruct (Qeq_bool (r V_k0) 3) eqn:E0; destruct (Qeq_bool (r V_k1) 3) eqn:E1; cbn [andb negb]; try discriminate.
+  intros _. split; apply Qeq_bool_iff; assumption.
+Qed.
+
+(* likewise the dense one accepts exactly 3x3 and 1x1 *)
+Theorem ne16_conv2d_generic_kernel_domain r c : ~ r V_wp == 0 -> ~ r V_theta == 0 ->
+  ne16_conv2d_generic r = Some c -> kernel_3x3_or_1x1 r.
+Proof.
+  intros A B. unfold ne16_conv2d_generic, ne16_wrapper. rewrite (qeqb_false _ A), (qeqb_false _ B). cbn [orb].
+  destruct (negb (Qeq_bool (r V_ip) 8)); [discriminate|].
+  unfold keq, kernel_3x3_or_1x1.
+  destruct (Qeq_bool (r V_k0) 3) eqn:E0; destruct (Qeq_bool (r V_k1) 3) eqn:E1;
+  destruct (Qeq_bool (r V_k0) 1) eqn:F0; destruct (Qeq_bool (r V_k1) 1) eqn:F1; cbn [andb orb negb]; try discriminate; intros _;
+  repeat match goal with H : Qeq_bool _ _ = true |- _ => apply Qeq_bool_iff in H end; tauto.
+Qed.
